@@ -25,7 +25,7 @@ type Val struct {
 }
 
 func (v Val) IsNumber() bool {
-	return v.K == "int" || v.K == "rat" || v.K == "tok" || v.K == "huge"
+	return v.K == "int" || v.K == "rat" || v.K == "tok" || v.K == "huge" || v.K == "tiny"
 }
 
 // Int64 of an "int" value.
@@ -48,6 +48,8 @@ func (v Val) Float() float64 {
 		return float64(v.N) / float64(v.D)
 	case "huge":
 		return math.Ldexp(float64(v.N), int(v.D))
+	case "tiny":
+		return math.Ldexp(float64(v.N), -int(v.D))
 	case "tok":
 		switch v.T {
 		case "nzero":
@@ -73,6 +75,8 @@ func (v Val) String() string {
 		return fmt.Sprintf("%d/%d", v.N, v.D)
 	case "huge":
 		return fmt.Sprintf("%d*2^%d", v.N, v.D)
+	case "tiny":
+		return fmt.Sprintf("%d*2^-%d", v.N, v.D)
 	case "tok":
 		return v.T
 	case "bool", "sign":
@@ -123,6 +127,14 @@ func classify(f float64) Val {
 			return mkVal("huge", -1, int64(e-1), "")
 		}
 		return mkVal("opq", 0, 1, "")
+	}
+	// a power of two below the range of the small rationals (subnormal or near it)
+	if fr, e := math.Frexp(f); (fr == 0.5 || fr == -0.5) && e-1 <= -31 {
+		sgn := int64(1)
+		if fr < 0 {
+			sgn = -1
+		}
+		return mkVal("tiny", sgn, int64(-(e - 1)), "")
 	}
 	// dyadic rational n / 2^k
 	d := int64(1)
